@@ -34,8 +34,6 @@ CLAIM = {
 FINDINGS = [
     ("KF-C01-array-trailing-comma", ("arrcomma",), lambda s, j, v, je, se: v == "errdiff" and s == "O"),
     ("KF-C01-unterminated-string-32", ("unterm32",), lambda s, j, v, je, se: v == "errdiff" and s == "O"),
-    ("KF-C01-mapkey-skip-panic", ("mapkeyskip",), lambda s, j, v, je, se: v == "crash" and s == "P" and "index out of range" in se),
-    ("KF-C01-ptrptr-null", ("ptrptrunm",), lambda s, j, v, je, se: v == "errdiff"),
     ("KF-C01-base64-padding", ("b64pad",), lambda s, j, v, je, se: v == "errdiff" and s == "O" and "base64" in je),
     ("KF-C01-quoted-string-inner", ("qesc",), lambda s, j, v, je, se: v == "errdiff" and s == "O" and "invalid use of ,string" in je),
     ("KF-C01-raw-lenient", ("rawlenient",), lambda s, j, v, je, se: v == "errdiff" and s == "O" and ("SyntaxError" in je or "errorString:invalid" in je)),
